@@ -9,6 +9,8 @@ HERE = os.path.dirname(os.path.abspath(__file__))
 VERIF = os.path.dirname(HERE)
 sys.path.insert(0, HERE)
 from mutants import MUTANTS
+from mutants_s3 import MUTANTS_S3
+MUTANTS = MUTANTS + MUTANTS_S3
 REPO = os.environ.get("SELFTEST_REPO", "/tmp/verif-selftest/repo")
 WORK = os.environ.get("SELFTEST_WORK", "/tmp/verif-selftest/work")
 
